@@ -471,6 +471,14 @@ void mmd_export_token_opendocument_raw(DString * out, const char * source, token
 
 
 void mmd_export_token_tree_opendocument_raw(DString * out, const char * source, token * t, scratch_pad * scratch) {
+
+	// Prevent stack overflow with "dangerous" input causing extreme recursion
+	if (scratch->recurse_depth == kMaxExportRecursiveDepth) {
+		return;
+	}
+
+	scratch->recurse_depth++;
+
 	while (t != NULL) {
 		if (scratch->skip_token) {
 			scratch->skip_token--;
@@ -480,10 +488,20 @@ void mmd_export_token_tree_opendocument_raw(DString * out, const char * source, 
 
 		t = t->next;
 	}
+
+	scratch->recurse_depth--;
 }
 
 
 void mmd_export_token_tree_opendocument_math(DString * out, const char * source, token * t, scratch_pad * scratch) {
+
+	// Prevent stack overflow with "dangerous" input causing extreme recursion
+	if (scratch->recurse_depth == kMaxExportRecursiveDepth) {
+		return;
+	}
+
+	scratch->recurse_depth++;
+
 	while (t != NULL) {
 		if (scratch->skip_token) {
 			scratch->skip_token--;
@@ -493,6 +511,8 @@ void mmd_export_token_tree_opendocument_math(DString * out, const char * source,
 
 		t = t->next;
 	}
+
+	scratch->recurse_depth--;
 }
 
 
